@@ -24,17 +24,94 @@ def _res0(path):
     return obj
 
 
+def poison(x, depth=0):
+    """After a result has been read, wreck it in place if it is a mutable container.  A function that hands out
+    an object it also keeps (a cached list, a shared table row, a memoised dict) is then wrong on its next call:
+    the property pins the value for *every* call, whatever the caller did with an earlier result."""
+    if depth > 3:
+        return
+    try:
+        import numpy as np
+        if isinstance(x, np.ndarray):
+            if x.flags.writeable and x.size and x.dtype.kind in "fiu":
+                x[...] = (np.nan if x.dtype.kind == "f" else -12345)
+            return
+    except Exception:
+        pass
+    if isinstance(x, list):
+        for e in x:
+            poison(e, depth + 1)
+        del x[:]
+    elif isinstance(x, dict):
+        for e in list(x.values()):
+            poison(e, depth + 1)
+        for k in list(x.keys()):
+            x[k] = "<poisoned>"
+    elif isinstance(x, set):
+        x.clear()
+    elif isinstance(x, tuple):
+        for e in x:
+            poison(e, depth + 1)
+
+
+def after(prelude, path, args):
+    """run the prelude calls (results and exceptions ignored), then the real call: the value of a decoder must not
+    depend on what was decoded before it (shared caches, memoised helpers, aliased buffers)"""
+    for p, a, kw in prelude:
+        try:
+            r = _res(p)(*a, **kw)
+            poison(r)
+        except Exception:  # noqa
+            pass
+    return _res(path)(*args)
+
+
+PRELUDE_POOL = [
+    ("pyModeS.common.crc", {}), ("pyModeS.common.crc", {"encode": True}), ("pyModeS.common.icao", {}),
+    ("pyModeS.common.typecode", {}), ("pyModeS.common.df", {}), ("pyModeS.common.altcode", {}),
+    ("pyModeS.common.idcode", {}), ("pyModeS.common.allzeros", {}), ("pyModeS.common.hex2bin", {}),
+    ("pyModeS.py_common.crc_legacy", {}), ("pyModeS.bds.infer", {}), ("pyModeS.bds.infer", {"mrar": True}),
+    ("pyModeS.bds.bds20.is20", {}), ("pyModeS.bds.bds20.cs20", {}), ("pyModeS.bds.bds17.is17", {}),
+    ("pyModeS.bds.bds17.cap17", {}), ("pyModeS.bds.bds40.is40", {}), ("pyModeS.bds.bds50.is50", {}),
+    ("pyModeS.bds.bds60.is60", {}), ("pyModeS.adsb.icao", {}), ("pyModeS.adsb.callsign", {}),
+    ("pyModeS.adsb.altitude", {}), ("pyModeS.adsb.velocity", {}), ("pyModeS.adsb.nuc_p", {}),
+    ("pyModeS.adsb.emergency_squawk", {}), ("pyModeS.decoder.uplink.uplink_fields", {}),
+    ("pyModeS.decoder.uplink.bds", {}), ("pyModeS.allcall.interrogator", {}), ("pyModeS.surv.identity", {}),
+]
+
+
+def neighbour(rng, m):
+    """the same frame with one hex digit changed (never the first two: the format stays the same)"""
+    i = rng.randrange(2, len(m))
+    c = "0123456789ABCDEF"[rng.randrange(16)]
+    if m[i].islower() or (m[i].isdigit() and m.lower() == m and m.upper() != m):
+        c = c.lower()
+    return m[:i] + c + m[i + 1:]
+
+
+def make_prelude(rng, m, k=2):
+    out = []
+    for _ in range(k):
+        p, kw = PRELUDE_POOL[rng.randrange(len(PRELUDE_POOL))]
+        arg = m if rng.random() < 0.5 else neighbour(rng, m)
+        out.append([p, [arg], kw])
+    return out
+
+
 def pick(path, idxs, *args, **kw):
     """call and keep the listed tuple members"""
     r = _res(path)(*args, **kw)
     if r is None:
         return None
-    return tuple(r[i] for i in idxs)
+    out = tuple(r[i] for i in idxs)
+    return out
 
 
 def dictvals(path, keys, *args):
     r = _res(path)(*args)
-    return tuple(r[k] for k in keys)
+    out = tuple(r[k] for k in keys)
+    poison(r)
+    return out
 
 
 def isinst(path, *args):
